@@ -292,19 +292,19 @@ Definition p_last_record (prev : obs) (o : op) (cur : obs) : bool :=
 (** each lookup lists exactly the entries whose stored content names the address / spec *)
 Definition p_indexes (accts sspec_ids cspec_ids : list Z) (o : obs) : list string :=
   tag (llz_eqb (l_as o)
-         (map (fun a => setz (map sc_id (filter (fun s => memz a (sc_owners s ++ sc_da s)) (o_scopes o)))) accts))
+         (map (fun a => setz (map sc_id (filter (fun s => memz a (map acct (sc_owners s ++ sc_da s))) (o_scopes o)))) accts))
       "prop:scopes_by_address_exact" ++
   tag (llz_eqb (l_ss o)
          (map (fun x => setz (map sc_id (filter (fun s => sc_spec s =? x) (o_scopes o)))) sspec_ids))
       "prop:scopes_by_scope_spec_exact" ++
   tag (llz_eqb (l_asp o)
-         (map (fun a => setz (map ss_id (filter (fun s => memz a (ss_owners s)) (o_sspecs o)))) accts))
+         (map (fun a => setz (map ss_id (filter (fun s => memz a (map acct (ss_owners s))) (o_sspecs o)))) accts))
       "prop:scope_specs_by_address_exact" ++
   tag (llz_eqb (l_cs o)
          (map (fun c => setz (map ss_id (filter (fun s => memz c (ss_cspecs s)) (o_sspecs o)))) cspec_ids))
       "prop:scope_specs_by_contract_spec_exact" ++
   tag (llz_eqb (l_ac o)
-         (map (fun a => setz (map cs_id (filter (fun s => memz a (cs_owners s)) (o_cspecs o)))) accts))
+         (map (fun a => setz (map cs_id (filter (fun s => memz a (map acct (cs_owners s))) (o_cspecs o)))) accts))
       "prop:contract_specs_by_address_exact".
 
 (** the per-scope / per-contract-spec iterators agree with the complete listings *)
